@@ -17,7 +17,7 @@ func init() { register("C09", c09) }
 func c09(c *Ctx) {
 	r := c.R
 	r.Explanation = "Partial: structural clauses of the LevelDB-backed raft.LogStore/StableStore. (L1) key-space separation: every stable-store method prepends the same constant prefix, every log method derives an 8-byte big-endian key from the index, the index scans skip keys with that same prefix, and the prefix cannot be mistaken for a log key; (L2) sibling agreement of the four stable-store methods and of the log writers (every entry handed to StoreLogs is written, keyed by its own index; batches are written and their error returned); (L3) the error contract: not-found maps to raft.ErrLogNotFound / zero value, empty stores report index 0; (L4) the interval convention: GetBulkIterator is half-open, built from start/limit in that order, and every caller passes its inclusive upper bound + 1; DeleteRange deletes every key of its range. Equality with an in-memory model over all operation sequences and reopen points is behavioural and not decided."
-	r.Rules = []string{"C09.L1 key-space separation", "C09.L2 sibling agreement", "C09.L3 error contract", "C09.L4 interval convention", "C09.L5 error discipline", "C09.L6 lock hygiene", "C09.L7 key of the written entry", "C09.L8 conversion on open", "C09.L9 iterator discipline"}
+	r.Rules = []string{"C09.L1 key-space separation", "C09.L2 sibling agreement", "C09.L3 error contract", "C09.L4 interval convention", "C09.L5 error discipline", "C09.L6 lock hygiene", "C09.L7 key of the written entry", "C09.L8 conversion on open", "C09.L9 iterator discipline", "C09.L10 decisive errors stay decisive"}
 
 	store := c.P.Named("raftstore", "LevelDBStore")
 	if store == nil {
@@ -384,6 +384,7 @@ func c09(c *Ctx) {
 		}
 	}
 
+	c.errorDispositions("C09.L10", []string{"raftstore", "raftlog"}, nil, "raft takes a nil error from its log / stable store as 'durably stored' or 'this is the entry'")
 	// ---------- L6 lock hygiene (a store method that returns with s.mu held blocks every later call of raft)
 	{
 		var ms []*load.FuncInfo
